@@ -61,15 +61,18 @@ def gen_case(rng, tier):
         nested = rng.random() < 0.3
         everywhere = ["sql", "it"]
         inner = ["rfn", "neg", [["ref", a]], restr]
+        if restr and rng.random() < 0.3:
+            # a function that every engine has registered under that name, restricted by the expression
+            inner = ["rfn", "both", [["ref", a]], restr]
         if kind == "calc":
             free = [x for x in "efg" if x not in cols]
             if free:
-                e = ["rfn", "add", [["ref", a], ["ref", b2]], restr]
+                e = ["rfn", "add", [["ref", a], ["ref", b2]], restr] if inner[1] != "both" else inner
                 if nested:
                     e = rng.choice([["rfn", "add", [inner, ["ref", b2]], everywhere], ["sub", ["ref", b2], inner]])
                 f = {"kind": "calc", "node": ["calc", ["leaf", "__T__"], free[0], e, None]}
         elif kind == "sel":
-            p = ["rcmp", "le", ["ref", a], ["ref", b2], restr]
+            p = ["rcmp", "le", ["ref", a], ["ref", b2], restr] if inner[1] != "both" else ["cmp", "le", inner, ["ref", b2]]
             if nested:
                 p = rng.choice([["rcmp", "le", inner, ["ref", b2], everywhere], ["cmp", "ge", ["ref", b2], inner]])
             f = {"kind": "sel", "node": ["sel", ["leaf", "__T__"], p, None]}
